@@ -545,7 +545,8 @@ func (n *rnode) connectX(name string, info *p2p.NodeInfo, priv crypto.PrivKeyEd2
 	select {
 	case e := <-done:
 		if e != nil {
-			return fail(e)
+			c2.Close()
+			return nil, e
 		}
 	case <-time.After(25 * time.Second):
 		return fail(errors.New("node did not finish adding the peer"))
